@@ -114,10 +114,25 @@ def run(tier, seed):
                     rs = np.array(data["rowsums"])
                     worst = 0.0
                     cache = {}
-                    for si in range(0, len(S), max(1, len(S) // 40)):
+                    sampled = list(range(0, len(S), max(1, len(S) // 40)))
+                    stocks = sorted({(int(S[si][:m].sum()), int(S[si][m:].sum())) for si in sampled})
+                    # the mass of each sampled row according to the Lean model (theorem C13.hendrix_row_sum), cross-checked with the closed formula
+                    from scipy.stats import poisson as _po
+                    qa_, qb_ = kw["max_order_quantity_a"], kw["max_order_quantity_b"]
+                    D_ = m * (max(qa_, qb_) + 2)
+                    mua_, mub_ = kw.get("demand_poisson_mean_a", 5.0), kw.get("demand_poisson_mean_b", 5.0)
+                    pa_ = [Fraction(float(v)) for v in _po.pmf(np.arange(D_ + 1), mua_)]
+                    pb_ = [Fraction(float(v)) for v in _po.pmf(np.arange(D_ + 1), mub_)]
+                    tl_ = [Fraction(float(1 - _po.cdf(x_ - 1, mua_))) for x_ in range(qa_ * m + 1)]
+                    hl = [f"hendrixprobs D={D_} maxA={qa_ * m} maxB={qb_ * m} pa={flist(pa_, frac)} pb={flist(pb_, frac)} tail={flist(tl_, frac)} "
+                          f"rho={frac(Fraction(kw.get('substitution_probability', 0.5)))} x={sa} y={sb}" for (sa, sb) in stocks]
+                    for (sa, sb), mline in zip(stocks, core.run_driver(hl)):
+                        cache[(sa, sb)] = float(Fraction(core.parse_resp(mline)["sum"]))
+                        res.count("hendrix:mass-by-model")
+                        if abs(cache[(sa, sb)] - hendrix_mass(kw, sa, sb)) > 1e-9:
+                            raise core.HarnessError(f"Lean model mass {cache[(sa, sb)]} != closed formula {hendrix_mass(kw, sa, sb)} at {(sa, sb)} {kw}")
+                    for si in sampled:
                         sa, sb = int(S[si][:m].sum()), int(S[si][m:].sum())
-                        if (sa, sb) not in cache:
-                            cache[(sa, sb)] = hendrix_mass(kw, sa, sb)
                         worst = max(worst, abs(cache[(sa, sb)] - rs[si][0]))
                     if worst < 1e-9:
                         key = "hendrix:mass-lost-beyond-max_demand"
